@@ -95,18 +95,34 @@ HWireOf(s, ip, w) ==      \* the hierarchical wire for wire w inside instance pa
 HPinOf(s, ip, q) == HI(ip) \o << <<"P", s.pinPort[q]>>, <<"Q", q>> >>
 PathIds(h) == [j \in DOMAIN InstPart(h) |-> InstPart(h)[j][2]]
 
+(* Only links that are local to one level of the hierarchy are followed: a wire of definition D carries     *)
+(* pins of D's own ports and pins of D's children.  (The IR lets a wire hold any pin; following a foreign     *)
+(* pin would leave the elaborated design - and need not terminate.)                                          *)
+DefOfWire(s, w) == IF s.wireCable[w] = None THEN None ELSE s.cabDef[s.wireCable[w]]
+DefOfPin(s, q)  == IF s.pinPort[q] = None THEN None ELSE s.portDef[s.pinPort[q]]
 InsideWire(s, hp) ==      \* set with the wire attached inside the hierarchical pin, or {}
     LET q == Last(hp)[2]  w == s.pinWire[q] IN
-    IF w = None \/ s.wireCable[w] = None THEN {} ELSE {HWireOf(s, PathIds(hp), w)}
+    IF w = None \/ s.wireCable[w] = None \/ DefOfWire(s, w) = None \/ DefOfWire(s, w) # DefOfPin(s, q) THEN {}
+    ELSE {HWireOf(s, PathIds(hp), w)}
 OutsideWire(s, hp) ==     \* the wire attached to the instance's outer pin, one level up
     LET q == Last(hp)[2]  ip == PathIds(hp)  i == Last(ip) IN
     IF Len(ip) < 2 \/ ~HasOP(s, i, q) THEN {}
     ELSE LET w == OPWire(s, i, q) IN
-         IF w = None \/ s.wireCable[w] = None THEN {} ELSE {HWireOf(s, Front(ip), w)}
+         IF w = None \/ s.wireCable[w] = None \/ DefOfWire(s, w) = None \/ DefOfWire(s, w) # s.instParent[i] THEN {}
+         ELSE {HWireOf(s, Front(ip), w)}
 HPinsOfWire(s, hw) ==     \* port pins and sub-instance pins attached to a hierarchical wire
-    LET w == Last(hw)[2]  ip == PathIds(hw) IN
+    LET w == Last(hw)[2]  ip == PathIds(hw)  d == DefOfWire(s, w) IN
     {IF r.k = "i" THEN HPinOf(s, ip, r.q) ELSE HPinOf(s, Append(ip, r.i), r.q) :
-        r \in {rr \in SeqSet(s.wirePins[w]) : rr.k \in {"i", "o"} /\ s.pinPort[rr.q] # None}}
+        r \in {rr \in SeqSet(s.wirePins[w]) :
+                  /\ rr.k \in {"i", "o"} /\ s.pinPort[rr.q] # None /\ d # None
+                  /\ (rr.k = "i" => DefOfPin(s, rr.q) = d)
+                  /\ (rr.k = "o" => (rr.i \in IdsI(s) /\ s.instParent[rr.i] = d /\ DefOfPin(s, rr.q) = s.instRef[rr.i]))}}
+(* every wire holds only pins of its own definition's ports and of that definition's children *)
+Local(s) ==
+    \A w \in IdsW(s) : \A j \in DOMAIN s.wirePins[w] :
+        LET r == s.wirePins[w][j]  d == DefOfWire(s, w) IN
+        /\ (r.k = "i" => (r.q \in IdsQ(s) /\ DefOfPin(s, r.q) = d))
+        /\ (r.k = "o" => (r.i \in IdsI(s) /\ s.instParent[r.i] = d))
 Adjacent(s, hw) ==
     UNION {InsideWire(s, hp) \cup OutsideWire(s, hp) : hp \in HPinsOfWire(s, hw)}
 RECURSIVE NetClosure(_, _)
